@@ -23,8 +23,11 @@ LEMMAS = {}
 
 
 class Lemma:
-    def __init__(self, name, vars, assumes, goals, props, uses=(), module="chartparse.instrument", note="", shift=True, assumptions=()):
+    def __init__(self, name, vars, assumes, goals, props, uses=(), module="chartparse.instrument", note="", shift=True, assumptions=(), chain=False):
         self.assumptions = list(assumptions)
+        # chain: the goals are proved in order and each goal is a hypothesis of the following ones (cut
+        # rule; the lemma counts as proved only if every goal is discharged, so this is sound)
+        self.chain = chain
         self.shift = shift      # add index-shifted copies of the quantified hypotheses (needed where goals talk about k+1)
         self.name, self.vars, self.assumes, self.goals = name, vars, assumes, goals
         self.props, self.uses, self.module, self.note = props, list(uses), module, note
@@ -68,6 +71,8 @@ def run_lemma(reg, idx, name, timeout_ms=None, seed=0):
             for gname, text in lem.goals:
                 goal = eng.truth(eng.spec_eval(text, env, st, lem.module), st)
                 obs.append(Obligation(f"lemma:{name}/{gname}", list(st.pc), goal, kind="lemma"))
+                if lem.chain:
+                    st.pc.append(goal)
             axioms = ctx.all_axioms()
             res["assumptions"] = sorted(set(ctx.assumptions) | set(lem.assumptions))
         # vacuity guard: the hypotheses must not be refutable (a contradictory assumption would
